@@ -26,6 +26,19 @@ static void put_dyadics(FILE *f, double const *v, int n)
     }
     fputc(']', f);
 }
+/* exact dyadic [n,k] when possible, else a fixed-point approximation [round(v*2^16), 16, 1] (|v| < 1024);
+   [0,-1] when neither applies */
+static void put_value(FILE *f, double v)
+{
+    if (!isfinite(v)) { fputs("[0,-1]", f); return; }
+    for (int k = 0; k <= 16; ++k)
+    {
+        double s = ldexp(v, k);
+        if (fabs(s) < 4194304.0 && s == floor(s)) { fprintf(f, "[%d,%d]", (int)s, k); return; }
+    }
+    if (fabs(v) < 1024.0) { fprintf(f, "[%d,16,1]", (int)llround(ldexp(v, 16))); return; }
+    fputs("[0,-1]", f);
+}
 /* order-preserving code of a finite double: [sign, hi31, mid17, lo16]; NaN/inf: sign 9 */
 static void put_ordered(FILE *f, double v)
 {
